@@ -106,7 +106,7 @@ def correspondence(ctx: Ctx):
 
     rng = ctx.rng
     cap = 700
-    reps = ctx.budget(2, 10)
+    reps = ctx.budget(2, 30)
     for _ in range(reps):
         for rank in range(1, 7):
             shape = _shape(rng, rank, cap)
@@ -128,7 +128,7 @@ def correspondence(ctx: Ctx):
                 yield {"line": line(op, sh, d, axes), "impl": _impl_t(lambda x=x, fn=fn: fn(x)),
                        "nontrivial": max(shape) >= 2, "bucket": f"{op}/r{rank}/dim=None"}
     # roll with arbitrary (negative, > n, zero) shifts
-    for _ in range(ctx.budget(90, 1500)):
+    for _ in range(ctx.budget(90, 5000)):
         rank = rng.randint(1, 6)
         shape = _shape(rng, rank, 500, need_odd_even=False)
         x = _arange(shape)
